@@ -1050,17 +1050,6 @@ func (m *repoManager) deleteRepo(uuid dvid.UUID, passcode string) error {
 		return fmt.Errorf("Passcode does not match repo %s passcode", uuid)
 	}
 
-	// Start deletion of all data instances.
-	r.RLock()
-	for _, data := range r.data {
-		go func(data dvid.Data) {
-			if err := storage.DeleteDataInstance(data); err != nil {
-				dvid.Errorf("Error trying to do async data instance %q deletion: %v\n", data.DataName(), err)
-			}
-		}(data)
-	}
-	r.RUnlock()
-
 	// Delete the repo off the datastore.
 	if err := r.delete(); err != nil {
 		return fmt.Errorf("Unable to delete repo from datastore: %v", err)
@@ -1087,7 +1076,22 @@ func (m *repoManager) deleteRepo(uuid dvid.UUID, passcode string) error {
 	m.idMutex.Unlock()
 	// Persist the version <-> UUID maps without the deleted repo, or its UUIDs would be
 	// known again after a restart.
-	return m.putCaches()
+	if err := m.putCaches(); err != nil {
+		return err
+	}
+
+	// Only now start deletion of the keys of all its data instances: started before the repo
+	// was removed from the metadata, a crash could leave the repo listed with its data gone.
+	r.RLock()
+	for _, data := range r.data {
+		go func(data dvid.Data) {
+			if err := storage.DeleteDataInstance(data); err != nil {
+				dvid.Errorf("Error trying to do async data instance %q deletion: %v\n", data.DataName(), err)
+			}
+		}(data)
+	}
+	r.RUnlock()
+	return nil
 }
 
 // ---- Repo-level properties functions -------
